@@ -1,7 +1,7 @@
 (* C09 - The reveal-one-coalition environment reflects exactly what was revealed.
    Statements only; proofs in theories/EnvProofs.v.  The hidden game v and its normalised copy nv drawn at each reset
    are inputs of the state machine. *)
-From ICG Require Import Prelude Bits Table Bounds GameOps FoldLemmas SAKnowledge SAMKnowledge Shapley Exploit Norms Env EnvProofs.
+From ICG Require Import Prelude Bits Table Bounds GameOps FoldLemmas SASound SAKnowledge SAMKnowledge Shapley Exploit Norms Env EnvProofs GapsAlongReveals.
 From Coq Require Import ZArith.
 
 (* After ANY sequence of reset / step / unstep calls that starts with a reset and in which every call succeeds
@@ -59,7 +59,14 @@ Theorem C09_step_unstep : forall e a e1 e2 ch k, ev_wf e -> ev_inv e ch k ->
 Proof. exact ev_step_unstep. Qed.
 Print Assumptions C09_step_unstep.
 
-(* the reward is minus the gap of the current table by definition of the model: ev_gapv e = ev_gap (e_gap e) (e_n e) (e_tab e) *)
+(* the reward is minus the gap of the current table: ev_gapv e = ev_gap (e_gap e) (e_n e) (e_tab e) by definition; for any
+   table whose bounds are sound for a hidden game with v(empty) = 0 (C01 for superadditive games under the superadditive
+   computers, C04 for superadditive-monotone games under the SAM approximations) the gap is >= 0, i.e. the reward is never positive *)
+Theorem C09_reward_never_positive :
+  forall g n K v t t' x, v 0%N == 0 -> K 0%N = true -> (forall s, bounded n s -> sound_at n K v t t' s) ->
+    ev_gap g n t' = Some x -> 0 <= x.
+Proof. exact reward_never_positive. Qed.
+Print Assumptions C09_reward_never_positive.
 
 Example C09_trace_nontrivial :
   let e0 := ev_make 3 CCached GExploit (Some 2%nat) [1; 2; 4]%N in
